@@ -38,6 +38,51 @@ SPECS = {
              "calls": {"int_lm": "int_lm", "grid.middle": "grid_middle"},
              "int_calls": {"grid.left_point": "left_point axes0", "grid.right_point": "right_point axes0"},
              "lists": {"grid.axes[0]": ("axes0", "Q")}},
+            # TIE2 -- compute_intensity_of_jumps specialised to a 1-d model (`model.dimension_model() == 1`, grid.origin = 0.0 as
+            # CTMCGrid.__init__ sets it for one axis): the list comprehension, enumerate(zip(..)), itertools.product(*intervals),
+            # next(..) and the loop over the remaining blocks are evaluated / unrolled at translation time (py2coq_loops "static");
+            # model.mass(a=(lo,), b=(hi,)) of a 1-d model is levy_measure.integrate(lo, hi) = `mass lo hi`
+            {"py": "compute_intensity_of_jumps", "coq": "compute_intensity_of_jumps_1d", "pyargs": ["model", "grid"],
+             "emitter": "py2coq_loops:checked", "require_imports": {"product": "itertools"},
+             "args": [("mass", _QQQ), ("grid_middle", _QQQ), ("axes0", "list Q"), ("origin_coordinate", "Z")], "ret": "Q",
+             "static_tests": {"model.dimension_model() == 1": True},
+             "attrs": {"grid.origin": "(0 # 1)"}, "int_attrs": {"grid.origin_coordinate": "origin_coordinate"},
+             "calls": {"grid.middle": "grid_middle"}, "kw_calls": {"model.mass": ("mass", ["a", "b"])},
+             "int_calls": {"grid.left_point": "left_point axes0", "grid.right_point": "right_point axes0"},
+             "lists": {"grid.axes[0]": ("axes0", "Q")}},
+        ],
+    },
+    # ---------------------------------------------------------------- C01 / C19: total jump rate of a 2-d (copula) chain
+    "GenTieChain2d": {
+        "file": "rpylib/distribution/samplingfactory.py", "dom": "Q", "ext": "py2coq_loops",
+        "header": _HDR_Q + "From RV Require Import Gen.GenTieChain.\n",
+        "funcs": [
+            # compute_intensity_of_jumps for a 2-d model on a product grid (`model.dimension_model() == 1` is false): the 3 x 3 blocks
+            # of itertools.product minus the first, unrolled.  h_left / h_right are tuples there: CTMCGrid.left_point /
+            # right_point (CoordinateND variants) and middle (tuple variant) act per axis with the same origin coordinate,
+            # grid.origin = (0.0, 0.0) -- that reading is declared in static_values (and exercised by the spot check)
+            {"py": "compute_intensity_of_jumps", "coq": "compute_intensity_of_jumps_2d", "pyargs": ["model", "grid"],
+             "emitter": "py2coq_loops:checked", "require_imports": {"product": "itertools"},
+             "args": [("mass2", "Q * Q -> Q * Q -> Q"), ("grid_middle", _QQQ), ("axes0", "list Q"), ("axes1", "list Q"),
+                      ("origin_coordinate", "Z")], "ret": "Q",
+             "static_tests": {"model.dimension_model() == 1": False},
+             "static_values": {
+                 "grid.middle(grid.left_point(grid.origin_coordinate), grid.origin)":
+                     ["(grid_middle (left_point axes0 origin_coordinate) (0 # 1))", "(grid_middle (left_point axes1 origin_coordinate) (0 # 1))"],
+                 "grid.middle(grid.origin, grid.right_point(grid.origin_coordinate))":
+                     ["(grid_middle (0 # 1) (right_point axes0 origin_coordinate))", "(grid_middle (0 # 1) (right_point axes1 origin_coordinate))"]},
+             "kw_calls": {"model.mass": ("mass2", ["a", "b"])},
+             "lists": {"grid.axes[0]": ("axes0", "Q"), "grid.axes[1]": ("axes1", "Q")}},
+        ],
+    },
+    # ---------------------------------------------------------------- C15: the running chain path over the product intervals
+    "GenTiePaths": {
+        "file": "rpylib/process/markovchain/markovchain.py", "dom": "Q", "ext": "py2coq_loops", "header": _HDR_Q,
+        "funcs": [
+            # values: per interval the chain values (1-d chain: a list of numbers); pieces is a Python list of arrays
+            {"py": "chain_over_intervals", "coq": "chain_over_intervals", "pyargs": ["values"],
+             "args": [("values", "list (list Q)")], "ret": "list Q",
+             "lists": {"values": ("values", "list Q")}, "local_lists": {"pieces": "list Q"}},
         ],
     },
     # ---------------------------------------------------------------- C02: descent of the binary search tree (while loop)
@@ -50,6 +95,18 @@ SPECS = {
              "int_attrs": {"self.K": "K"}, "int_names": ["ptr"], "lists": {"self.bst": ("bst", "Q")},
              "identity_calls": ["self.states"], "skip_stmts": ["self.sampling_cost += 1"],
              "fuel": "(S (Z.to_nat K))", "on_fuel": "(-1)%Z"},
+        ],
+    },
+    # ---------------------------------------------------------------- C02: one draw of the alias sampler
+    "GenTieAlias": {
+        "file": "rpylib/distribution/variate/alias.py", "dom": "Q", "ext": "py2coq_loops",
+        "header": _HDR_Q.replace("Qabs Bool", "Qabs Qround Bool"),
+        "funcs": [
+            # x = np.uint(ku) truncates the float ku = K * uniform: Qfloor (ku >= 0); the result is the Python int x or J[x]
+            {"py": "AliasMethod._draw_with_u", "coq": "draw_with_u", "pyargs": ["uniform"],
+             "args": [("K", "Z"), ("q", "list Q"), ("J", "list Z"), ("uniform", "Q")], "ret": "Z", "ret_int": True,
+             "int_attrs": {"self.K": "K"}, "lists": {"self.q": ("q", "Q"), "self.J": ("J", "Z")},
+             "float_to_int": {"np.uint": "Qfloor"}},
         ],
     },
     # ---------------------------------------------------------------- C03: the level coupling of one fine increment
